@@ -63,6 +63,17 @@ _l("C12", "4 C12", "RatesOf (Ledger.tla) states the combination rule per era (1%
 _l("C13", "4 C13", "MC_Ledger proves AdmissionOK; conversions between all ordered pairs of asset classes at every height around each activation (live and all-era "
    "schedules), funded and unfunded, with zero rates, are decided by TLC from the observed pre-state at the execution height.")
 
+_l("C14", "4 C14", "StakeOf / StakePayouts (Ledger.tla) state the rule: stake from MIN(previous, current snapshot) of non-PEG assets in USD, floor shares of "
+   "4,500 PEG x 144, dust to a top staker, full stake when below the cap; chains crossing 144 / 288 (/432) with movements between snapshots, late funds, new "
+   "addresses, ties, totals below / above the cap, a zero-rate asset, a snapshot height without rates, before and after 2.0.2 are run on the real node; TLC "
+   "compares every PEG delta and both snapshot tables.")
+_l("C15", "4 C15", "NullifyBurn / MintStage / DevStage (Ledger.tla) state each scheduled event; a sweep of six activation placements relative to the 144-block "
+   "cadence with funded special addresses is run on the real node; TLC compares the balance of every special address after every block, so a payout or "
+   "adjustment at a wrong height, for a wrong amount, repeated or missing is an issue.")
+_l("C16", "4 C16", "PegStage (LedgerBlock.tla): requested amounts, floor shares of the bank, dust to the highest request (lowest txid among ties), refunds at spot "
+   "rates, per-height sets before V4 and one pooled set with a bank row after; legacy-era chains with totals below / above the bank, ties and requests spread "
+   "over unrated blocks are run on the real node; TLC compares PEG / source deltas, recorded yield + refund and the bank row.")
+
 PENDING = {}
 
 def main():
